@@ -146,6 +146,8 @@ func init() {
 				// 12 data files (ids 0..11) before the history: file-name parsing, id ordering, two-digit ids
 				add("twelve-files-k2-k1", merge(base, p("fill", 12, "k", 2, "k2", 1, "ops", opPut|opDelete, "vlens", 1, "index", 3, "shards", 1, "dfs_lo", 20, "dfs_hi", 20)))
 				add("cfgsweep-k2", merge(base, p("cfgsweep", 2, "k", 2, "k2", 0, "ops", opPut|opDelete|opBatch, "bmax", 1, "vlens", 1, "r_index", 2, "r_shards", 2, "dfs_lo", 40, "dfs_hi", 40)))
+				// value lengths where the uvarint length field of the record header changes width
+				add("varint-width-values-k2", merge(base, p("k", 2, "ops", opPut|opDelete, "vlens", 5, "vbig", 127, "vbig2", 128, "vbig3", 129, "index", 3, "shards", 1, "r_io", 2)))
 			} else {
 				add("end-offsets-std", merge(base, p("k", 1, "ops", opPut, "vlens", 4, "vbig2", -100, "index", 3, "shards", 1)))
 				add("end-offsets-mmap", merge(base, p("k", 1, "ops", opPut, "vlens", 4, "vbig2", -100, "index", 3, "shards", 1, "io", 1, "r_io", 1)))
@@ -625,6 +627,7 @@ func init() {
 			}
 			js = append(js, JobSpec{Name: "hint-codec-all-32-bit", Harness: "datafile", Func: "verifHarnessC18Codec", Params: p(), Scale: scaleDF(32), CrossCheck: tier == "thorough"})
 			js = append(js, JobSpec{Name: "log-codec-all-64-bit", Harness: "datafile", Func: "verifHarnessC18LogCodec", Params: p(), Scale: scaleDF(32), CrossCheck: true})
+			js = append(js, JobSpec{Name: "log-codec-varint-width-boundaries", Harness: "datafile", Func: "verifHarnessC18LogCodecWidths", Params: p(), Scale: scaleDF(32)})
 			base := p("pool", 2, "klen", 2, "vlens", 2, "index", 3, "shards", 1, "dfs_lo", 60, "dfs_hi", 120)
 			if tier == "quick" {
 				add("k3", merge(base, p("k", 3, "ops", opPut|opDelete)))
